@@ -792,6 +792,10 @@ def call_ext(ev, dotted, args, kwargs, node):
 
     if dotted.startswith("builtins."):
         return call_builtin(ev, dotted.split(".", 1)[1], args, kwargs, node)
+    if dotted in ("numpy.errstate", "numpy.printoptions"):
+        return Sym("context_manager:" + dotted, ("contextmanager", "notnone"))   # changes how fp errors are REPORTED, not any value
+    if dotted in ("numpy.seterr", "numpy.geterr", "numpy.set_printoptions"):
+        return Const(None)
     if dotted.startswith("numpy."):
         return np_call(ev, dotted.split(".", 1)[1], args, kwargs, node)
     if dotted.startswith("scipy.stats.norm."):
@@ -838,6 +842,18 @@ def call_ext(ev, dotted, args, kwargs, node):
         return _IDENTITY_DECORATOR
     if dotted in ("functools.wraps",):
         return _IDENTITY_DECORATOR
+    # ---- observability: loggers, clocks, warning filters and floating-point error states neither produce nor change values
+    if dotted in ("logging.getLogger",):
+        return Sym("logger", ("logger", "notnone"))
+    if dotted.startswith("logging.") and dotted.rsplit(".", 1)[1] in ("debug", "info", "warning", "error", "critical", "exception", "log", "basicConfig"):
+        return Const(None)
+    if dotted in ("time.perf_counter", "time.time", "time.monotonic", "time.process_time", "time.perf_counter_ns", "time.time_ns"):
+        return ev.fresh("clock", ("float", "notnone", "clock"))
+    if dotted in ("numpy.errstate", "contextlib.nullcontext", "warnings.catch_warnings", "contextlib.ExitStack"):
+        return Sym("context_manager:" + dotted, ("contextmanager", "notnone"))
+    if dotted in ("warnings.warn", "warnings.simplefilter", "warnings.filterwarnings"):
+        ev.event("warn", fn=dotted, args=list(args), node=node)
+        return Const(None)
     if dotted in ("dataclasses.dataclass", "dataclasses.field"):
         return _IDENTITY_DECORATOR
     if dotted == "dataclasses.replace":
@@ -1194,6 +1210,13 @@ def call_method(ev, recv, name, args, kwargs, node):
         return App("str.split", (v,) + tuple(as_v(ev, a) for a in args))
     if name == "join":
         return App("str.join", (v,) + tuple(as_v(ev, a) for a in args))
+    if isinstance(v, Sym) and "logger" in v.tags:
+        if name in ("debug", "info", "warning", "warn", "error", "critical", "exception", "log", "setLevel", "addHandler", "removeHandler"):
+            return Const(None)
+        if name in ("getChild",):
+            return v
+        if name in ("isEnabledFor", "hasHandlers"):
+            return App("truthy", (App("m:" + name, (v,) + tuple(as_v(ev, a) for a in args)),))
     if isinstance(v, Sym) and "rng" in v.tags:
         args, kwargs = canonical_call("random." + name, list(args), dict(kwargs))
         draw = ev.fresh("draw")
